@@ -2,6 +2,7 @@
 # tools/seeds.sh "<seed list>" [ids...] : run the quick checks at several VERIF_SEED values, one summary line per run
 seeds="$1"; shift
 cd "$(dirname "$0")/.." || exit 2
+export VERIF_EVIDENCE_DIR="$PWD/out/evidence-scratch"; mkdir -p "$VERIF_EVIDENCE_DIR"   # these runs must not overwrite evidence/
 mkdir -p out
 for s in $seeds; do
   echo "== VERIF_SEED=$s"
